@@ -66,9 +66,7 @@ def oracle(p):
 
 
 def finding_of(v):
-    if v['rule'] == F_IDLE:
-        return 'F-C24-1'
-    return None
+    return None      # F_IDLE (was F-C24-1) is fixed by 4e7b916: reported as a violation if it returns
 
 
 def scenarios(run):
